@@ -228,3 +228,93 @@ Proof.
       * rewrite (fl_loop_done L f ((c :: a') ++ b) Ed), (fl_loop_done L f (c :: a') Ed). reflexivity.
   - apply G; assumption.
 Qed.
+(* ---- a failure is recorded in a flag (so that it is not mistaken for "need more data") ------ *)
+Lemma rl_parse_fail L buf : forall r r1 rest, rl_parse L r buf = (r1, rest, Fail) -> rl_fail r1 = true.
+Proof.
+  induction buf as [|c t IH]; intros r r1 rest H; cbn [rl_parse] in H.
+  - destruct (rl_done r); inversion H.
+  - destruct (rl_done r); [inversion H|].
+    destruct (rl_parse_char L r c) as [r2 ok]. destruct ok; [eapply IH, H|].
+    inversion H; subst. reflexivity.
+Qed.
+
+Lemma sl_parse_fail L buf : forall r r1 rest, sl_parse L r buf = (r1, rest, Fail) -> sl_fail r1 = true.
+Proof.
+  induction buf as [|c t IH]; intros r r1 rest H; cbn [sl_parse] in H.
+  - destruct (sl_done r); inversion H.
+  - destruct (sl_done r); [inversion H|].
+    destruct (sl_parse_char L r c) as [r2 ok]. destruct ok; [eapply IH, H|].
+    inversion H; subst. reflexivity.
+Qed.
+
+Lemma fl_parse_fail L f buf f1 rest : fl_parse L f buf = (f1, rest, Fail) -> fl_fail f1 = true.
+Proof.
+  unfold fl_parse. destruct (fl_fail f) eqn:Ef; [intros H; inversion H; subst; exact Ef|].
+  intros H. destruct (fl_done f && next_is_blank buf);
+    (eapply (fl_loop_result L buf _ f1 rest Fail) in H; [exact H|reflexivity || exact Ef]).
+Qed.
+
+Lemma hd_blank_line_fail h buf h1 rest : hd_blank_line h buf = (h1, rest, Fail) -> hd_fail h1 = true.
+Proof.
+  unfold hd_blank_line. destruct buf as [|c t]; [discriminate|].
+  destruct (negb (hd_cr h) && (c =? 13)).
+  - destruct t as [|d t1]; [discriminate|]. destruct (d =? 10); intros H; inversion H; subst; reflexivity.
+  - destruct (c =? 10); intros H; inversion H; subst; reflexivity.
+Qed.
+
+Lemma hd_loop_fail L fuel : forall h buf h1 rest, hd_loop fuel L h buf = (h1, rest, Fail) -> hd_fail h1 = true.
+Proof.
+  induction fuel as [|fuel IH]; intros h buf h1 rest H; cbn [hd_loop] in H.
+  - inversion H; subst. reflexivity.
+  - match type of H with (if ?e then _ else _) = _ => destruct e end.
+    + destruct (fl_parse L (hd_field h) buf) as [[f1 r1] p] eqn:Ep. destruct p.
+      * destruct r1 as [|x r1']; [discriminate|].
+        match type of H with (if ?e then _ else _) = _ => destruct e end.
+        -- inversion H; subst. reflexivity.
+        -- eapply IH, H.
+      * destruct (fl_fail f1) eqn:Ef; [|discriminate]. inversion H; subst. reflexivity.
+      * apply fl_parse_fail in Ep. rewrite Ep in H. inversion H; subst. reflexivity.
+    + eapply hd_blank_line_fail, H.
+Qed.
+
+Lemma hd_parse_fail L h buf h1 rest : hd_parse L h buf = (h1, rest, Fail) -> hd_fail h1 = true.
+Proof.
+  unfold hd_parse. destruct (hd_fail h) eqn:Ef; [intros H; inversion H; subst; exact Ef|]. apply hd_loop_fail.
+Qed.
+
+(* request head: a Fail result always leaves a flag the receiver consults *)
+Lemma rq_parse_fail L q buf q1 rest : rq_parse L q buf = (q1, rest, Fail) ->
+  rl_fail (rq_line q1) || hd_fail (rq_headers q1) = true.
+Proof.
+  unfold rq_parse. destruct (rl_valid (rq_line q)) eqn:Ev.
+  - destruct (hd_valid (rq_headers q)); [discriminate|].
+    destruct (hd_parse L (rq_headers q) buf) as [[h1 b2] r2] eqn:Eh. destruct r2; try discriminate.
+    intros H; inversion H; subst. cbn. rewrite (hd_parse_fail _ _ _ _ _ Eh). apply Bool.orb_true_r.
+  - destruct (rl_parse L (rq_line q) buf) as [[l1 b1] r1] eqn:El. destruct r1; try discriminate.
+    + destruct (hd_valid (rq_headers q)); [discriminate|].
+      destruct (hd_parse L (rq_headers q) b1) as [[h1 b2] r2] eqn:Eh. destruct r2; try discriminate.
+      intros H; inversion H; subst. cbn. rewrite (hd_parse_fail _ _ _ _ _ Eh). apply Bool.orb_true_r.
+    + intros H; inversion H; subst. cbn. rewrite (rl_parse_fail _ _ _ _ _ El). reflexivity.
+Qed.
+
+(* hence: when the head fails to parse, receive answers INVALID - never INCOMPLETE - even if the
+   offending byte was the last byte of the read *)
+Lemma receive_head_failure_is_invalid cfg v buf q1 rest :
+  rq_valid (rv_req v) = false -> rq_parse (c_lim cfg) (rv_req v) buf = (q1, rest, Fail) ->
+  snd (receive cfg v buf) = RX_INVALID.
+Proof.
+  intros Hv Hp. unfold receive. rewrite Hv. cbn [negb]. rewrite Hp.
+  assert (E : nonempty rest || rl_fail (rq_line q1) || hd_fail (rq_headers q1) = true).
+  { rewrite <- Bool.orb_assoc. rewrite (rq_parse_fail _ _ _ _ _ Hp). apply Bool.orb_true_r. }
+  rewrite E. reflexivity.
+Qed.
+
+(* sticky failure: a failed sub-parser refuses every later call without consuming anything *)
+Lemma fl_parse_sticky L f buf : fl_fail f = true -> fl_parse L f buf = (f, buf, Fail).
+Proof. unfold fl_parse. intros ->. reflexivity. Qed.
+Lemma hd_parse_sticky L h buf : hd_fail h = true -> hd_parse L h buf = (h, buf, Fail).
+Proof. unfold hd_parse. intros ->. reflexivity. Qed.
+Lemma ck_parse_sticky L k buf : ck_fail k = true -> ck_parse L k buf = (k, buf, Fail).
+Proof. unfold ck_parse. intros ->. reflexivity. Qed.
+Lemma rc_parse_sticky L k buf : rc_fail k = true -> rc_parse L k buf = (k, buf, Fail).
+Proof. unfold rc_parse. intros ->. reflexivity. Qed.
